@@ -60,7 +60,7 @@ func (r *ruleImpl) Execute(ctx heimdall.Context) (rule.Backend, error) {
 		// unescape path
 		request.URL.RawPath = ""
 	case config.EncodedSlashesOff:
-		if strings.Contains(request.URL.RawPath, "%2F") {
+		if strings.Contains(request.URL.RawPath, "%2F") || strings.Contains(request.URL.RawPath, "%2f") {
 			return nil, errorchain.NewWithMessage(heimdall.ErrArgument,
 				"path contains encoded slash, which is not allowed")
 		}
@@ -160,7 +160,9 @@ func unescape(value string, handling config.EncodedSlashesHandling) string {
 		return unescaped
 	}
 
-	unescaped, _ := url.PathUnescape(strings.ReplaceAll(value, "%2F", "$$$escaped-slash$$$"))
+	// an encoded slash stays encoded, whatever the case of its hex digits
+	unescaped, _ := url.PathUnescape(strings.ReplaceAll(
+		strings.ReplaceAll(value, "%2F", "$$$escaped-slash$$$"), "%2f", "$$$escaped-slash$$$"))
 
 	return strings.ReplaceAll(unescaped, "$$$escaped-slash$$$", "%2F")
 }
